@@ -11,8 +11,13 @@
 (***************************************************************************)
 EXTENDS IsoGrowth, Json, IOUtils
 Cases == JsonDeserialize(IOEnv.TRACE_FILE)
-VARIABLES i, j
-tvars == <<i, j, phase, k, list, noiter>>
+VARIABLES i, j, geo, gbad
+\* GEOMETRY FLOW (as in IsoGrowthGen.tla, here bound to recorded runs): every event carries gs, the name of the geometry (centre, eps, PA by
+\* value; 0 = the user's first guess) the fit started from, and ge, the one the returned isophote carried when fit_isophote returned.  geo runs
+\* parallel to list; a fit must start from the geometry of the last isophote of the list (gbad remembers the first call that did not), a
+\* failed fit is repaired with the geometry of the isophote before it (outward) / of the first isophote of the list (inward), and the returned
+\* isophotes must carry the machine's geometries (C.final[n][3]).
+tvars == <<i, j, phase, k, list, noiter, geo, gbad>>
 C == Cases[i]
 NEv == Len(C.calls)
 Ev == C.calls[j]
@@ -25,9 +30,15 @@ NiterOK(e, first) == CASE e.code = 0 -> e.niter >= (IF first THEN 20 ELSE 10) /\
 CanOut == j <= NEv /\ phase = "out" /\ Ev.ph = "fit" /\ Ev.k = k /\ ((noiter \/ Rit(C.par, k)) <=> Ev.code = 4) /\ NiterOK(Ev, j = 1)
 CanIn == j <= NEv /\ phase = "in" /\ Ev.ph = "fit" /\ Ev.k = k /\ (Rit(C.par, k) <=> Ev.code = 4) /\ NiterOK(Ev, FALSE)
 CanCentral == phase = "central" /\ (C.par.MinZero => (j <= NEv /\ Ev.ph = "central" /\ Ev.niter = 0 /\ Ev.code = 0))
-StepOut == CanOut /\ FitOut(C.par, Ev.code, Ev.thin) /\ j' = j + 1 /\ i' = i
-StepIn == CanIn /\ FitIn(C.par, Ev.code) /\ j' = j + 1 /\ i' = i
-StepCentral == CanCentral /\ CentralAndSort(C.par) /\ j' = (IF C.par.MinZero THEN j + 1 ELSE j) /\ i' = i
+StartG == IF list = <<>> THEN 0 ELSE Last(geo)
+GeoStep(failed, ref) == /\ geo' = IF list' = <<>> THEN <<>>
+                               ELSE IF Len(list') = Len(list) + 1 THEN Append(geo, IF failed THEN ref ELSE Ev.ge)
+                               ELSE geo
+                        /\ gbad' = IF gbad = 0 /\ Ev.gs # StartG THEN j ELSE gbad
+StepOut == CanOut /\ FitOut(C.par, Ev.code, Ev.thin) /\ GeoStep(Ev.code < 0 \/ Ev.code = 1, StartG) /\ j' = j + 1 /\ i' = i
+StepIn == CanIn /\ FitIn(C.par, Ev.code) /\ GeoStep(Ev.code < 0, IF geo = <<>> THEN 0 ELSE geo[1]) /\ j' = j + 1 /\ i' = i
+StepCentral == /\ CanCentral /\ CentralAndSort(C.par) /\ j' = (IF C.par.MinZero THEN j + 1 ELSE j) /\ i' = i /\ UNCHANGED gbad
+               /\ geo' = [n \in 1..Len(list') |-> IF list'[n].k = Central THEN 0 ELSE geo[CHOOSE m \in 1..Len(list) : list[m].k = list'[n].k]]
 Over == phase \in {"done", "crash"} \/ (~CanOut /\ ~CanIn /\ ~CanCentral)
 Final == [n \in 1..Len(list) |-> <<list[n].k, list[n].code>>]
 Clause ==
@@ -38,11 +49,13 @@ Clause ==
   ELSE IF Len(C.final) # Len(list) \/ \E n \in 1..Len(list) : C.final[n][1] # list[n].k \/ C.final[n][2] # list[n].code
        THEN "returned_list_is_the_sorted_list_of_fitted_isophotes"
   ELSE IF ~Returned(C.par, list) THEN "returned_list_sorted_contiguous_within_minsma_maxsma"
+  ELSE IF gbad # 0 THEN "every_fit_starts_from_the_geometry_of_the_last_isophote_in_the_list"
+  ELSE IF \E n \in 1..Len(list) : list[n].k # Central /\ C.final[n][3] # geo[n] THEN "failed_fit_is_repaired_with_the_reference_geometry"
   ELSE "ok"
 Verdict == /\ i <= Len(Cases) /\ Over
            /\ PrintT(<<"V", ToJson([id |-> C.id, ok |-> (Clause = "ok"), clause |-> Clause, at |-> j])>>)
-           /\ i' = i + 1 /\ j' = 1 /\ phase' = "out" /\ k' = 0 /\ list' = <<>> /\ noiter' = FALSE
-TInit == Init /\ i = 1 /\ j = 1
+           /\ i' = i + 1 /\ j' = 1 /\ phase' = "out" /\ k' = 0 /\ list' = <<>> /\ noiter' = FALSE /\ geo' = <<>> /\ gbad' = 0
+TInit == Init /\ i = 1 /\ j = 1 /\ geo = <<>> /\ gbad = 0
 TNext == i <= Len(Cases) /\ (StepOut \/ StepIn \/ StepCentral \/ Verdict)
 TSpec == TInit /\ [][TNext]_tvars
 =============================================================================
